@@ -3,6 +3,7 @@
 From Verif Require Import Base.Util Model.Outcome Model.Observation Proofs.SortProofs Proofs.ObservationProofs
   Proofs.K08Proofs Gen.Generated.
 From Verif Require Import Base.GenIR Gen.GeneratedTr Proofs.GenTrHooks.
+From Verif Require Import Base.GenIR Gen.GeneratedTr Proofs.GenTrObs.
 Open Scope N_scope.
 
 (* Performables: for every store content (any number of staged results, any sizes >= 2 bytes), every
@@ -165,6 +166,28 @@ Theorem C08_gen_block_history_decisions :
   end.
 Proof. exact gen_hook_block_history. Qed.
 Print Assumptions C08_gen_block_history_decisions.
+
+End GenTie.
+
+Section GenTie.
+Local Open Scope Z_scope.
+(* ---- Tie to the source by translation (Gen/GeneratedTr.v, regenerated from /repo on every run by gen/translate.go) ----
+   g_* are the decision terms translated from the CURRENT Go code: every condition, the branch structure and which
+   white-listed effect statement runs on which path.  The theorems below state that the model's functions - about
+   which every theorem above speaks - are the interpretation of these terms. *)
+(* ocr3Plugin.Observation: pre-build hooks first (staging, metadata, proposal queue), then block history, log proposals, conditional proposals and LAST the staged results; an error returns at once *)
+Theorem C08_gen_Observation_hook_order :
+  forall (prev_nonnil : bool) prev_len (dec_err log_err cond_err staging_err : bool),
+  let present := prev_nonnil || negb (prev_len =? 0) in
+  let pre := if present then [1; 2; 3] else [] in
+  g_observation prev_nonnil prev_len dec_err log_err cond_err staging_err =
+  if present && dec_err then ([], RetO 1)
+  else if log_err then (pre ++ [4; 5], RetO 1)
+  else if cond_err then (pre ++ [4; 5; 6], RetO 1)
+  else if staging_err then (pre ++ [4; 5; 6; 7], RetO 1)
+  else (pre ++ [4; 5; 6; 7], RetO 2).
+Proof. exact gen_observation. Qed.
+Print Assumptions C08_gen_Observation_hook_order.
 
 End GenTie.
 
